@@ -1229,3 +1229,13 @@ def r13(cx):
 
 
 RS.explanation += ' A failed redirection of a command without a command name is not masked by a command substitution status (R13).'
+
+
+# --- wave 5: the producer side of "a shell error aborts the script" (seed C10-s10: the nounset test folded into the modifier match,
+# so ${#unset} / ${unset#p} no longer raise the error that handle.rs turns into Interrupt(2))
+from rules.C01 import r4 as _c01_nounset_error_raised
+from engine import Rule
+RS.rules.append(Rule('C10.R14', 'K-GUARD+K-ORDER', 'the unset-parameter shell error that aborts a script under `set -u` is raised for every '
+                     'parameter expansion without a switch modifier - plain, length and trim forms alike - before the modifier is '
+                     'applied (C01.R4): a form that silently expands to 0 or the empty string lets the script run on', _c01_nounset_error_raised))
+RS.explanation += ' The nounset error is raised for every non-switch form of parameter expansion (R14 = C01.R4).'
